@@ -1,9 +1,427 @@
-/- C19 - model (stub: not built yet) -/
+/-
+C19 - model of the OCI-layout signature store of `registry/repository.go`:
+`PushSignature` (blob + packed image manifest with subject, notation config type, annotations),
+`ListSignatures` -> `signatureReferrers` (per-node decision over the predecessors of the subject)
+and `FetchSignatureBlob` -> `getSignatureBlobDesc` (media type, manifest cap, exactly one
+layer/blob, blob cap - all before the blob is read), over an abstract content-addressed store.
+
+Digests are abstract labels (`Nat`): `Op.id` labels the manifest an operation stores, `blob`
+labels envelope bytes, `Desc.dig` labels a subject. The harness maps real sha256 digests back to
+these labels; distinct labels = distinct contents.
+-/
 import NotationModel.Basic
+import NotationModel.Generated.C19
 open Lean
 
 namespace NotationModel.C19
+open NotationModel.Facts
 
-def judge (_ : Json) : Except String Json := .error "C19: model not built yet"
+/-! ### constants (all read from the Go source by `extract/c19.go`) -/
+
+def capM : Nat := c19MaxManifestSizeLimit
+def capB : Nat := c19MaxBlobSizeLimit
+def notationType : String := c19ArtifactTypeNotation
+def mtImage : String := c19MediaTypeImageManifest
+def mtArtifact : String := c19MediaTypeArtifactManifest
+def createdKey : String := c19AnnotationCreated
+/-- how the harness canonicalises the time stamp that `oras.PackManifest` adds -/
+def timeMark : String := "<time>"
+
+/-! ### data -/
+
+/-- a descriptor as far as `content.Equal` looks at it: media type, digest, size -/
+structure Desc where
+  mt : String
+  dig : Nat
+  size : Nat
+  deriving DecidableEq, Repr, FromJson, ToJson
+
+/-- a layer / blob descriptor inside a manifest: media type, digest label of the bytes, declared size -/
+structure Layer where
+  mt : String
+  blob : Nat
+  size : Nat
+  deriving DecidableEq, Repr, FromJson, ToJson
+
+structure KV where
+  k : String
+  v : String
+  deriving DecidableEq, Repr, FromJson, ToJson
+
+/-- a stored manifest -/
+structure Manifest where
+  id : Nat                   -- digest label
+  mt : String                -- media type of its descriptor (and its format)
+  size : Nat                 -- byte size (the store verifies it on push: declared = real)
+  subject : Option Desc
+  atype : String             -- what the code reads as artifact type: `artifactType` of a legacy
+                             -- artifact manifest, `config.mediaType` of an image manifest
+  layers : List Layer        -- `layers` (image manifest) / `blobs` (artifact manifest)
+  annos : List KV
+  deriving DecidableEq, Repr
+
+structure State where
+  manifests : List Manifest := []     -- in order of arrival
+  blobs : List (Nat × Nat) := []      -- (digest label, byte size)
+  deriving Repr
+
+inductive Kind
+  | push      -- `Repository.PushSignature`
+  | raw       -- a manifest written directly into the layout (foreign referrer, hostile manifest, legacy signature)
+  | blob      -- a blob written directly into the layout
+  deriving DecidableEq, Repr, FromJson, ToJson
+
+/-- one operation of a history (flat, see CONVENTIONS.md) -/
+structure Op where
+  kind : Kind
+  id : Nat                   -- label of the manifest this operation stores (push, raw)
+  subject : Option Desc      -- push: the subject handed to PushSignature; raw: the manifest's subject
+  mt : String                -- push: envelope media type; raw: manifest media type
+  blob : Nat                 -- push / blob: label of the bytes
+  bsize : Nat                -- push / blob: byte size of the bytes
+  msize : Nat                -- push / raw: byte size of the stored manifest (measured by the harness)
+  atype : String             -- raw: artifactType / config.mediaType
+  topType : String           -- raw image manifest: top-level `artifactType` field (the code never reads it)
+  layers : List Layer        -- raw
+  annos : List KV            -- push: annotations handed to PushSignature; raw: manifest annotations
+  deriving DecidableEq, Repr, FromJson, ToJson
+
+/-- how the target answers `Predecessors` -/
+inductive Index
+  | exact        -- keyed by (mediaType, digest, size): `oci.Store`
+  | digestOnly   -- keyed by digest only: how a registry's referrers index behaves
+  deriving DecidableEq, Repr, FromJson, ToJson
+
+structure Input where
+  mode : Index
+  ops : List Op
+  queries : List Desc        -- subject descriptors listed after every operation
+  probes : List Desc         -- descriptors handed to FetchSignatureBlob at the end (`dig` = manifest label)
+  reopenOk : Bool            -- oras could re-open the layout from disk at the end (measured; oras' loader
+                             -- gives up on a manifest whose subject states a wrong size for existing content)
+  deriving Repr, FromJson, ToJson
+
+structure FetchObs where
+  ok : Bool
+  blob : Nat                 -- label of the returned bytes (0 on error)
+  mt : String                -- media type of the returned descriptor ("" on error)
+  manifestRead : Bool        -- a Fetch of the manifest was issued to the target
+  blobRead : Bool            -- a Fetch of a blob was issued to the target
+  deriving DecidableEq, Repr, FromJson, ToJson
+
+structure SigObs where
+  id : Nat
+  annos : List KV            -- annotations on the listed descriptor, sorted by key
+  fetch : FetchObs           -- FetchSignatureBlob of the listed descriptor
+  deriving DecidableEq, Repr, FromJson, ToJson
+
+structure ListObs where
+  ok : Bool
+  sigs : List SigObs         -- in order of arrival
+  bigRead : Bool             -- the content of a manifest larger than the cap was fetched
+  deriving DecidableEq, Repr, FromJson, ToJson
+
+structure StepObs where
+  ok : Bool                  -- the operation returned no error
+  lists : List ListObs       -- one per query
+  deriving DecidableEq, Repr, FromJson, ToJson
+
+structure Obs where
+  steps : List StepObs
+  probes : List FetchObs
+  reopened : List ListObs    -- one per query, from a store re-opened from disk after the last step
+  reopenSame : Bool          -- `NewOCIRepository(path)` lists and fetches the same as that store
+  deriving DecidableEq, Repr, FromJson, ToJson
+
+/-! ### push -/
+
+def insertKV (kv : KV) : List KV → List KV
+  | [] => [kv]
+  | x :: r => if kv.k < x.k then kv :: x :: r else x :: insertKV kv r
+
+/-- `ensureAnnotationCreated` of oras `PackManifest` (a supplied value is assumed well-formed) -/
+def ensureCreated (annos : List KV) : List KV :=
+  if annos.any (·.k == createdKey) then annos else insertKV ⟨createdKey, timeMark⟩ annos
+
+/-- the manifest an operation stores -/
+def mkManifest (o : Op) : Manifest :=
+  match o.kind with
+  | .push => { id := o.id, mt := mtImage, size := o.msize, subject := o.subject, atype := notationType,
+               layers := [⟨o.mt, o.blob, o.bsize⟩], annos := ensureCreated o.annos }
+  | _ => { id := o.id, mt := o.mt, size := o.msize, subject := o.subject, atype := o.atype,
+           layers := o.layers, annos := o.annos }
+
+def blobSize (st : State) (b : Nat) : Option Nat := (st.blobs.find? (·.1 == b)).map (·.2)
+
+/-- one operation: new state and "no error". `PushSignature`: `oras.PushBytes` fails with
+"already exists" for bytes the store already has (nothing else changes); otherwise the
+blob is stored and the packed manifest is pushed. -/
+def step (st : State) (o : Op) : State × Bool :=
+  match o.kind with
+  | .push =>
+    if (blobSize st o.blob).isSome then (st, false)
+    else ({ manifests := st.manifests ++ [mkManifest o], blobs := st.blobs ++ [(o.blob, o.bsize)] }, true)
+  | .raw => ({ st with manifests := st.manifests ++ [mkManifest o] }, true)
+  | .blob =>
+    if (blobSize st o.blob).isSome then (st, false)
+    else ({ st with blobs := st.blobs ++ [(o.blob, o.bsize)] }, true)
+
+/-! ### list -/
+
+/-- `Predecessors(desc)`: manifests naming `q` as subject, as the index sees it -/
+def isCandidate (mode : Index) (q : Desc) (m : Manifest) : Bool :=
+  match m.subject with
+  | none => false
+  | some s => match mode with
+    | .exact => s == q
+    | .digestOnly => s.dig == q.dig
+
+structure Scan where
+  err : Bool                 -- "referrer node too large"
+  kept : List Manifest
+  read : List Manifest       -- manifests whose content was fetched
+  deriving Repr
+
+/-- body of one `case` of the switch in `signatureReferrers` (both cases have this shape) -/
+def scanCase (q : Desc) (m : Manifest) (rest : Scan) : Scan :=
+  if m.size > capM then ⟨true, [], []⟩                       -- return before FetchAll
+  else if m.subject != some q then { rest with read := m :: rest.read }   -- content.Equal on (mediaType, digest, size): continue
+  else if m.atype == notationType then { rest with kept := m :: rest.kept, read := m :: rest.read }
+  else { rest with read := m :: rest.read }
+
+/-- the loop of `signatureReferrers` over the predecessors -/
+def scan (q : Desc) : List Manifest → Scan
+  | [] => ⟨false, [], []⟩
+  | m :: r =>
+    if m.mt == mtArtifact then scanCase q m (scan q r)
+    else if m.mt == mtImage then scanCase q m (scan q r)
+    else scan q r                                              -- default: continue
+
+/-! ### fetch -/
+
+def refuse (manifestRead blobRead : Bool) : FetchObs :=
+  { ok := false, blob := 0, mt := "", manifestRead := manifestRead, blobRead := blobRead }
+
+/-- after the manifest was fetched: exactly one layer, blob cap, then the blob -/
+def fetchLayers (st : State) (ls : List Layer) : FetchObs :=
+  match ls with
+  | [l] =>
+    if l.size > capB then refuse true false
+    else if blobSize st l.blob == some l.size then
+      { ok := true, blob := l.blob, mt := l.mt, manifestRead := true, blobRead := true }
+    else refuse true true                                      -- missing blob / size mismatch: FetchAll fails
+  | _ => refuse true false
+
+/-- `FetchSignatureBlob(d)` -/
+def fetchSig (st : State) (d : Desc) : FetchObs :=
+  if d.mt != mtArtifact && d.mt != mtImage then refuse false false
+  else if d.size > capM then refuse false false
+  else match st.manifests.find? (·.id == d.dig) with
+    | none => refuse true false                                -- FetchAll: not found
+    | some m =>
+      if m.size != d.size then refuse true false               -- FetchAll: size mismatch
+      else fetchLayers st (if d.mt == m.mt then m.layers else [])   -- `layers` vs `blobs` by descriptor media type
+
+def descOf (m : Manifest) : Desc := ⟨m.mt, m.id, m.size⟩
+
+def sigObs (st : State) (m : Manifest) : SigObs :=
+  { id := m.id, annos := m.annos, fetch := fetchSig st (descOf m) }
+
+/-- `ListSignatures(q)` followed by `FetchSignatureBlob` of everything listed -/
+def listObs (mode : Index) (st : State) (q : Desc) : ListObs :=
+  let s := scan q (st.manifests.filter (isCandidate mode q))
+  { ok := !s.err,
+    sigs := if s.err then [] else s.kept.map (sigObs st),
+    bigRead := s.read.any (fun m => decide (m.size > capM)) }
+
+/-! ### run -/
+
+def runSteps (mode : Index) (qs : List Desc) : State → List Op → List StepObs × State
+  | st, [] => ([], st)
+  | st, o :: rest =>
+    let r := step st o
+    let so : StepObs := { ok := r.2, lists := qs.map (listObs mode r.1) }
+    let t := runSteps mode qs r.1 rest
+    (so :: t.1, t.2)
+
+def run (i : Input) : Obs :=
+  let r := runSteps i.mode i.queries {} i.ops
+  { steps := r.1,
+    probes := i.probes.map (fetchSig r.2),
+    reopened := if i.reopenOk then i.queries.map (listObs .exact r.2) else [],
+    reopenSame := true }
+
+/-! ### specification: what a history (newest operation first) means -/
+
+def writesBlob (o : Op) : Bool := o.kind == .push || o.kind == .blob
+
+/-- the bytes labelled `b` are in the layout after history `h` -/
+def stored (h : List Op) (b : Nat) : Bool := h.any (fun o => writesBlob o && o.blob == b)
+
+/-- their byte size (first writer) -/
+def storedSize : List Op → Nat → Option Nat
+  | [], _ => none
+  | o :: h, b =>
+    match storedSize h b with
+    | some s => some s
+    | none => if writesBlob o && o.blob == b then some o.bsize else none
+
+/-- operation `o`, executed after history `h`, returns no error: envelopes must be new -/
+def succeeds (h : List Op) (o : Op) : Bool :=
+  match o.kind with
+  | .raw => true
+  | _ => !stored h o.blob
+
+/-- `o` (after `h`) stores a manifest -/
+def creates (h : List Op) (o : Op) : Bool :=
+  match o.kind with
+  | .push => !stored h o.blob
+  | .raw => true
+  | .blob => false
+
+def isManifestType (mt : String) : Bool := mt == mtArtifact || mt == mtImage
+
+/-- media type of the manifest `o` stores -/
+def opMt (o : Op) : String := if o.kind == .push then mtImage else o.mt
+
+/-- `o` (after `h`) stores a signature manifest of subject `q`: a successful `PushSignature` for
+exactly `q`, or a directly written image / artifact manifest whose subject is exactly `q` and
+whose artifact type is the notation type -/
+def isSigFor (h : List Op) (o : Op) (q : Desc) : Bool :=
+  match o.kind with
+  | .push => !stored h o.blob && o.subject == some q
+  | .raw => isManifestType o.mt && o.subject == some q && o.atype == notationType
+  | .blob => false
+
+/-- the signature manifests of `q` after a history, oldest first -/
+def sigsFor (q : Desc) : List Op → List Op
+  | [] => []
+  | o :: h => sigsFor q h ++ (if isSigFor h o q then [o] else [])
+
+def subjMatches (mode : Index) (q : Desc) (s : Option Desc) : Bool :=
+  match s with
+  | none => false
+  | some s => match mode with
+    | .exact => s == q
+    | .digestOnly => s.dig == q.dig
+
+/-- some referrer of `q` (as the index sees it) is a manifest over the size cap -/
+def refused (mode : Index) (q : Desc) : List Op → Bool
+  | [] => false
+  | o :: h => refused mode q h ||
+      (creates h o && subjMatches mode q o.subject && isManifestType (opMt o) && decide (o.msize > capM))
+
+/-- the layers of the manifest `o` stores -/
+def opLayers (o : Op) : List Layer :=
+  if o.kind == .push then [⟨o.mt, o.blob, o.bsize⟩] else o.layers
+
+/-- what fetching the manifest stored by `o` must give after history `h` -/
+def expectFetch (h : List Op) (o : Op) : FetchObs :=
+  match opLayers o with
+  | [l] =>
+    if l.size > capB then refuse true false
+    else if storedSize h l.blob == some l.size then
+      { ok := true, blob := l.blob, mt := l.mt, manifestRead := true, blobRead := true }
+    else refuse true true
+  | _ => refuse true false
+
+/-! ### the property over observables -/
+
+/-- one listing of the observation together with what it is a listing of -/
+structure View where
+  mode : Index
+  hist : List Op             -- newest first
+  q : Desc
+  lo : ListObs
+
+def stepViews (mode : Index) (qs : List Desc) : List Op → List Op → List StepObs → List View
+  | h, o :: rest, so :: sos =>
+    (List.zipWith (fun q lo => View.mk mode (o :: h) q lo) qs so.lists) ++ stepViews mode qs (o :: h) rest sos
+  | _, _, _ => []
+
+def views (i : Input) (o : Obs) : List View :=
+  stepViews i.mode i.queries [] i.ops o.steps ++
+    List.zipWith (fun q lo => View.mk .exact i.ops.reverse q lo) i.queries o.reopened
+
+/-- every step observation paired with (older history, operation) -/
+def stepPairs : List Op → List Op → List StepObs → List (List Op × Op × StepObs)
+  | h, o :: rest, so :: sos => (h, o, so) :: stepPairs (o :: h) rest sos
+  | _, _, _ => []
+
+def shapeOk (i : Input) (o : Obs) : Bool :=
+  o.steps.length == i.ops.length && o.steps.all (fun so => so.lists.length == i.queries.length) &&
+  o.probes.length == i.probes.length && o.reopened.length == (if i.reopenOk then i.queries.length else 0)
+
+/-- listed signatures of a view paired with the operations that are expected to be listed -/
+def paired (v : View) : List (Op × SigObs) := (sigsFor v.q v.hist).zip v.lo.sigs
+
+/-- the manifest a probe descriptor names exactly (label, media type, size), if any -/
+def probeTarget (h : List Op) (d : Desc) : Option Op :=
+  match h with
+  | [] => none
+  | o :: h' =>
+    if creates h' o && o.id == d.dig then
+      (if opMt o == d.mt && o.msize == d.size then some o else none)
+    else probeTarget h' d
+
+/-- well-formedness of an input: the manifest labels are pairwise distinct (they stand for sha256
+digests of distinct contents). The generator numbers the operations 0, 1, 2, ... -/
+def wf (i : Input) : Bool := decide ((i.ops.map (·.id)).Nodup)
+
+def hostileLayers (ls : List Layer) : Bool := ls.length != 1 || ls.any (fun l => decide (l.size > capB))
+
+def clauses (i : Input) (o : Obs) : Clauses :=
+  let vs := views i o
+  let H := i.ops.reverse
+  [ ("input_wellformed", wf i),
+    ("shape", shapeOk i o),
+    -- identical envelope bytes are refused by the store ("already exists"); everything else is accepted
+    ("push_accepted_iff_envelope_new",
+      (stepPairs [] i.ops o.steps).all (fun (h, op, so) => so.ok == succeeds h op)),
+    -- listing yields exactly the signature manifests pushed for that artifact, in order of arrival
+    ("list_exact",
+      vs.all (fun v => !v.lo.ok || v.lo.sigs.map (·.id) == (sigsFor v.q v.hist).map (·.id))),
+    -- none of another artifact, none of another artifact type, none whose subject merely shares a field
+    ("isolation",
+      vs.all (fun v => v.lo.sigs.all (fun s => v.hist.any (fun op =>
+        op.id == s.id && op.subject == some v.q &&
+        (op.kind == .push || (op.kind == .raw && op.atype == notationType && isManifestType op.mt)))))),
+    -- a listing fails exactly when a referrer manifest exceeds the cap, and then lists nothing
+    ("list_refused_iff_oversized_referrer",
+      vs.all (fun v => v.lo.ok == !refused v.mode v.q v.hist && (v.lo.ok || v.lo.sigs.isEmpty))),
+    ("oversized_manifest_never_read", vs.all (fun v => !v.lo.bigRead)),
+    -- fetching each yields the identical envelope bytes and media type that were pushed
+    ("fetch_roundtrip",
+      vs.all (fun v => !v.lo.ok || (paired v).all (fun (op, s) =>
+        match opLayers op with
+        | [l] => !(decide (l.size ≤ capB) && storedSize v.hist l.blob == some l.size) ||
+                   s.fetch == { ok := true, blob := l.blob, mt := l.mt, manifestRead := true, blobRead := true }
+        | _ => true))),
+    ("pushed_signature_fetches_its_envelope",
+      vs.all (fun v => !v.lo.ok || (paired v).all (fun (op, s) =>
+        !(op.kind == .push && decide (op.bsize ≤ capB)) ||
+          (s.fetch.ok && s.fetch.blob == op.blob && s.fetch.mt == op.mt)))),
+    -- with the pushed annotations on the manifest
+    ("annotations_superset",
+      vs.all (fun v => !v.lo.ok || (paired v).all (fun (op, s) => op.annos.all (fun kv => s.annos.contains kv)))),
+    -- not exactly one blob / blob over the cap: refused before the blob is read
+    ("hostile_refused_before_use",
+      vs.all (fun v => !v.lo.ok || (paired v).all (fun (op, s) =>
+        !hostileLayers (opLayers op) || (!s.fetch.ok && s.fetch.manifestRead && !s.fetch.blobRead)))),
+    -- a descriptor of the wrong media type or over the manifest cap: refused before anything is read
+    ("probe_refused_before_manifest_read",
+      (i.probes.zip o.probes).all (fun (d, f) =>
+        !(!isManifestType d.mt || decide (d.size > capM)) || (!f.ok && !f.manifestRead && !f.blobRead))),
+    ("probe_fetch",
+      (i.probes.zip o.probes).all (fun (d, f) =>
+        !(isManifestType d.mt && decide (d.size ≤ capM)) ||
+        match probeTarget H d with
+        | some op => f == expectFetch H op
+        | none => true)),
+    ("reopen_same", o.reopenSame) ]
+
+def Holds (i : Input) (o : Obs) : Bool := (clauses i o).holds
+
+def judge := judgeWith run clauses
 
 end NotationModel.C19
